@@ -203,86 +203,45 @@ Definition taiko_oneshot (flags : list bool) (take : Z) : Z * S :=
   let processed := Z.min (sat_sub n 1) (taiko_n_diff_objects flags) in
   (combo, process_range s0 0 processed).
 
-Inductive first_two := FNone | FOnlyFirst | FOnlySecond | FBoth.
-Definition taiko_first_two (flags : list bool) : first_two :=
-  match flags with
-  | [] => FNone
-  | [true] => FOnlyFirst
-  | [false] => FNone
-  | true :: true :: _ => FBoth
-  | true :: false :: _ => FOnlyFirst
-  | false :: true :: _ => FOnlySecond
-  | false :: false :: _ => FNone
-  end.
-
-(* tg_pos: how many difficulty objects `diff_objects_iter` has yielded *)
+(* TaikoGradualDifficulty after the fix 8d6162b: objects are passed one by one up to the next
+   hit; every object after the second one has a difficulty object (index pos - 2). *)
 Record tgstate := mk_tg { tg_idx : Z; tg_combo : Z; tg_pos : Z; tg_skill : S }.
 Definition taiko_new : tgstate := mk_tg 0 0 0 s0.
 Definition taiko_total_hits (flags : list bool) : Z := zlen (filter (fun b => b) flags).
-(* usize subtraction; wraps in release builds *)
+(* usize subtraction *)
 Definition taiko_len (flags : list bool) (g : tgstate) : Z :=
   wrap64 (taiko_total_hits flags - tg_idx g).
 
-(* the inner `loop`: process difficulty objects until one whose base object is a hit.
-   Returns None when the iterator is exhausted first (the `?`).  Structural on the
-   remaining flags (flags of objects pos+2 ...). *)
-Fixpoint taiko_until_hit (rest : list bool) (pos : Z) (s : S) : option (Z * S) * (Z * S) :=
+(* pass_next_hit on the remaining objects (flags from position pos on).  Returns the state
+   reached; None (with the state left behind) when the objects run out first. *)
+Fixpoint taiko_pass (rest : list bool) (g : tgstate) : option tgstate * tgstate :=
   match rest with
-  | [] => (None, (pos, s))
-  | h :: tl => let s' := process s pos in
-               if h then (Some (pos + 1, s'), (pos + 1, s'))
-               else taiko_until_hit tl (pos + 1) s'
+  | [] => (None, g)
+  | h :: tl =>
+      let s' := if 2 <=? tg_pos g then process (tg_skill g) (tg_pos g - 2) else tg_skill g in
+      if h then let g' := mk_tg (tg_idx g + 1) (tg_combo g + 1) (tg_pos g + 1) s' in (Some g', g')
+      else taiko_pass tl (mk_tg (tg_idx g) (tg_combo g) (tg_pos g + 1) s')
   end.
 
-Definition taiko_next (flags : list bool) (g : tgstate) : option Z * tgstate :=
-  if 2 <=? tg_idx g then
-    match taiko_until_hit (zskip (tg_pos g + 2) flags) (tg_pos g) (tg_skill g) with
-    | (Some (pos, s), _) =>
-        let g' := mk_tg (tg_idx g + 1) (tg_combo g + 1) pos s in (Some (tg_combo g'), g')
-    | (None, (pos, s)) => (None, mk_tg (tg_idx g) (tg_combo g) pos s)
-    end
-  else if taiko_n_diff_objects flags =? 0 then (None, g)
-  else
-    let combo :=
-      match taiko_first_two flags with
-      | FOnlyFirst => 1
-      | FOnlySecond => if tg_idx g =? 1 then 1 else tg_combo g
-      | FBoth => if tg_idx g =? 0 then 1 else if tg_idx g =? 1 then 2 else tg_combo g
-      | FNone => tg_combo g
-      end in
-    let g' := mk_tg (tg_idx g + 1) combo (tg_pos g) (tg_skill g) in (Some (tg_combo g'), g').
+Definition taiko_next (flags : list bool) (g : tgstate) : option (Z * S) * tgstate :=
+  match taiko_pass (zskip (tg_pos g) flags) g with
+  | (Some g', _) => (Some (tg_combo g', tg_skill g'), g')
+  | (None, g') => (None, g')
+  end.
 
-(* `for _ in 0..take { loop {...} }`; None when the iterator ran dry (nth returns None) *)
+(* `for _ in 0..min(n, len) { pass_next_hit()? }` *)
 Fixpoint taiko_nth_loop (flags : list bool) (k : nat) (g : tgstate) : option tgstate * tgstate :=
   match k with
   | O => (Some g, g)
   | Datatypes.S k' =>
-      match taiko_until_hit (zskip (tg_pos g + 2) flags) (tg_pos g) (tg_skill g) with
-      | (Some (pos, s), _) =>
-          taiko_nth_loop flags k' (mk_tg (tg_idx g + 1) (tg_combo g + 1) pos s)
-      | (None, (pos, s)) => (None, mk_tg (tg_idx g) (tg_combo g) pos s)
+      match taiko_pass (zskip (tg_pos g) flags) g with
+      | (Some g', _) => taiko_nth_loop flags k' g'
+      | (None, g') => (None, g')
       end
   end.
 
-Definition taiko_nth (flags : list bool) (n : Z) (g : tgstate) : option Z * tgstate :=
-  let tk := Z.min n (taiko_len flags g) in
-  let ft := taiko_first_two flags in
-  let '(tk, g) :=
-    if (2 <=? tg_idx g) || (tk =? 0) then (tk, g)
-    else if tg_idx g =? 0 then
-      if tk =? 1 then
-        (tk - 1, mk_tg 1 (match ft with FOnlyFirst | FBoth => 1 | _ => tg_combo g end)
-                       (tg_pos g) (tg_skill g))
-      else
-        (tk - 2, mk_tg 2 (match ft with FOnlyFirst | FOnlySecond => 1 | FBoth => 2
-                                   | FNone => tg_combo g end) (tg_pos g) (tg_skill g))
-    else (* idx = 1 *)
-      (tk - 1, mk_tg 2 (match ft with FOnlyFirst | FOnlySecond => 1 | FBoth => 2
-                                 | FNone => tg_combo g end) (tg_pos g) (tg_skill g)) in
-  (* the loop count is a usize; a wrapped len can make it huge, but the iterator runs dry
-     after at most n_diff_objects steps *)
-  let k := Z.min tk (taiko_n_diff_objects flags + 1) in
-  match taiko_nth_loop flags (Z.to_nat k) g with
+Definition taiko_nth (flags : list bool) (n : Z) (g : tgstate) : option (Z * S) * tgstate :=
+  match taiko_nth_loop flags (Z.to_nat (Z.min n (taiko_len flags g))) g with
   | (Some g', _) => taiko_next flags g'
   | (None, g') => (None, g')
   end.
@@ -293,6 +252,11 @@ Arguments g_idx {S Cnt} g.
 Arguments g_counts {S Cnt} g.
 Arguments g_skill {S Cnt} g.
 Arguments mk_g {S Cnt} g_idx g_counts g_skill.
+Arguments tg_idx {S} t.
+Arguments tg_combo {S} t.
+Arguments tg_pos {S} t.
+Arguments tg_skill {S} t.
+Arguments mk_tg {S} tg_idx tg_combo tg_pos tg_skill.
 
 (* ---- running op sequences, skill state = list of processed difficulty-object indices
    (most recent first) ------------------------------------------------------------- *)
